@@ -12,8 +12,10 @@
 
    [freq_in_range c f]: f is NaN, or -M <= f and f <= M for
    M = maximum_frequency_steer. *)
-From V Require Import Model.TimeTypes Model.Controller Proofs.Controller Proofs.ControllerFreq.
-From Coq Require Import Floats.
+From V Require Import Model.TimeTypes Model.Controller Proofs.Controller Proofs.ControllerFreq
+  Proofs.ControllerNan.
+From Coq Require Import Floats List.
+Import ListNotations.
 Open Scope Z_scope.
 
 (* f64::clamp as the code uses it: NaN goes to NaN, every other argument lands in [lo, hi] *)
@@ -44,11 +46,50 @@ Theorem C02_freq_offset_state : forall ar c ops s s',
   (freqs_of (fst (run ar c s ops)) <> [] /\ clamped c (freq_offset s')).
 Proof. exact run_freq_offset. Qed.
 
-(* NaN is applied only if the clamp argument (1+f)(1+c)-1 was NaN (C02_clamp_range, first
-   disjunct).  PARTIAL: that this argument is not NaN whenever the applied frequency f is in
-   range with M < 1 and the requested change c is not NaN (1+f is then finite and non-zero, so
-   the product can only be NaN through c) is NOT proved here; the correspondence sweeps it
-   (monitor: NaN applied although no input of the history was NaN). *)
+(* ---- no NaN is ever applied ------------------------------------------------------------
+   Vocabulary (Proofs/ControllerNan.v), all hardware comparisons:
+     f_finite x   := |x| < inf                                   (Rust x.is_finite())
+     freq_ok s    := f_finite (freq_offset s) /\ -1 < freq_offset s      (the kernel frequency)
+     slew_ok c s  := |desired_freq s| <= slew_max                 (true of init_st: desired_freq = 0)
+     slew_cfg c   := 0 <= slew_max /\ 0 < slew_minimum_duration   (+inf allowed for both)
+     nan_cfg c    := 0 < M /\ M < 1 /\ slew_cfg c /\ f_finite slew_max /\ f_finite steer_frequency_leftover
+     op_ok c o    := SteerFreq ch: ch not NaN (+-inf allowed);  SteerOffset ch fd: fd finite (ch arbitrary);
+                     Update (Some e): e_p11 finite and |e_freq| + slew_max < inf (float addition; true for
+                     every finite e_freq as soon as slew_max <= 2^970); nothing for TimeUpdate/Update None.
+     freq_within c f := f not NaN /\ -M <= f /\ f <= M.
+   The other configuration fields (step_threshold, the offset thresholds/leftover, steer_frequency_threshold,
+   the panic thresholds) and the offset part of an estimate are unconstrained (NaN, inf, negative included). *)
+
+(* the clamp argument (1+f)(1+c)-1: not NaN for a finite f above -1 and a non-NaN c.  1+f is finite (no overflow
+   for any finite f) and non-zero, so the product can only be NaN through c; inf - 1 = inf. *)
+Theorem C02_clamp_arg_not_nan : forall f c,
+  f_finite f = true -> PrimFloat.ltb (-1)%float f = true -> f_is_nan c = false ->
+  f_is_nan (PrimFloat.sub (PrimFloat.mul (PrimFloat.add fone f) (PrimFloat.add fone c)) fone) = false.
+Proof. exact arg_nn. Qed.
+
+(* Every history: every set_frequency argument is a number (not NaN) within +-M, and (second conjunct of
+   freq_ok preserved) the controller never leaves the finite frequencies above -1. *)
+Theorem C02_no_nan : forall ar c ops s,
+  nan_cfg c -> freq_ok s -> slew_ok c s -> Forall (op_ok c) ops ->
+  Forall (freq_within c) (freqs_of (fst (run ar c s ops))).
+Proof. exact run_freqs_within. Qed.
+
+(* The hypothesis |e_freq| + slew_max < inf of op_ok cannot be dropped: "every input finite, every configuration
+   value finite and positive, M < 1, kernel frequency 0" is NOT enough.  With slew_max = 1e308,
+   steer_frequency_leftover = 1e200: a slew request of 1.5e308 s sets desired_freq = -1e308; a consensus update
+   with frequency estimate 1e308, frequency variance 1e300 then forms freq_delta = 1e308 - (-1e308) = +inf and
+   sqrt(1e300) * 1e200 = +inf, and requests inf - inf = NaN: set_frequency(NaN).  (Only this double overflow
+   can produce a NaN: C02_no_nan.)  The same inputs on the implementation (harness/ntp-proto/c02.rs,
+   reports/K1_C02_nan_witness.json) give set_frequency(NaN) as well. *)
+Theorem C02_no_nan_refuted :
+  exists c f0 ops,
+    forallb f_finite (cfg_floats c) = true /\
+    forallb (PrimFloat.ltb 0%float) (cfg_floats c) = true /\
+    PrimFloat.ltb (c_max_freq c) 1%float = true /\
+    f_finite f0 = true /\ PrimFloat.ltb (-1)%float f0 = true /\
+    forallb f_finite (flat_map op_floats ops) = true /\
+    existsb f_is_nan (freqs_of (fst (run repo_arith c (init_st f0) ops))) = true.
+Proof. exact no_nan_refuted. Qed.
 
 (* f64::min with a non-NaN first operand never exceeds it (a NaN second operand is ignored) *)
 Theorem C02_min_bound : forall s q,
@@ -64,16 +105,40 @@ Proof. exact slew_freq_bound. Qed.
 
 (* ... a slew is started only for a non-NaN request, with desired_freq = -freq * signum(request),
    signum(request) = +-1.0 ... *)
-Theorem C02_slew_partial : forall ar c s ch fd cs s',
+Theorem C02_slew_desired : forall ar c s ch fd cs s',
   PrimFloat.ltb (c_step_threshold c) (PrimFloat.abs ch) = false ->
   steer_offset ar c s ch fd = (cs, Ok s') ->
   desired_freq s' = PrimFloat.mul (PrimFloat.opp (slew_freq c ch)) (f_signum ch) /\
   f_is_nan ch = false.
 Proof. exact slew_started. Qed.
-(* PARTIAL: the full statement |desired_freq| <= slew_max additionally needs that multiplying by
-   +-1.0 is exact and that freq >= 0 (|request| / duration >= 0 for a positive duration and a
-   non-negative slew_max); both are IEEE facts not proved here; the correspondence compares
-   desired_freq bit for bit and the monitor checks |desired_freq| <= slew_max on every run. *)
+(* ... whose magnitude is the slew frequency (multiplying by +-1.0 and negating are exact) ... *)
+Theorem C02_slew_exact : forall fr ch, f_is_nan ch = false ->
+  PrimFloat.abs (PrimFloat.mul (PrimFloat.opp fr) (f_signum ch)) = PrimFloat.abs fr.
+Proof. exact desired_abs. Qed.
+
+(* ... which lies in [0, slew_max] under positive slew limits (|change| / duration has its sign bit clear or is
+   NaN, and f64::min ignores the NaN) ... *)
+Theorem C02_slew_frequency_abs : forall c ch,
+  PrimFloat.leb 0%float (c_slew_max c) = true -> PrimFloat.ltb 0%float (c_slew_min_dur c) = true ->
+  PrimFloat.leb (PrimFloat.abs (slew_freq c ch)) (c_slew_max c) = true.
+Proof. exact slew_freq_abs. Qed.
+
+(* ... so every slew started leaves |desired_freq| <= slew_max: for the single call from any state ... *)
+Theorem C02_slew_started_bound : forall ar c s ch fd cs s',
+  slew_cfg c ->
+  PrimFloat.ltb (c_step_threshold c) (PrimFloat.abs ch) = false ->
+  steer_offset ar c s ch fd = (cs, Ok s') ->
+  slew_ok c s'.
+Proof. exact slew_started_bound. Qed.
+
+(* ... and along every history (any operations, estimates and requests, NaN/inf included): every state an
+   operation starts in, and the final state, satisfy |desired_freq| <= slew_max.  Hypotheses: positive slew
+   limits only (0 <= slew_max, 0 < slew_minimum_duration; a duration of -0.0 or below gives freq = -inf). *)
+Theorem C02_slew_bound : forall ar c ops s,
+  slew_cfg c -> slew_ok c s ->
+  Forall (fun x => slew_ok c (fst x)) (fst (trace ar c s ops)) /\
+  (forall s', snd (run ar c s ops) = Ok s' -> slew_ok c s').
+Proof. exact slew_bound_all. Qed.
 
 (* ... and time_update ends it. *)
 Theorem C02_slew_ends : forall c s cs s',
@@ -95,11 +160,33 @@ Proof.
   vm_compute. repeat split. eexists. eexists. split; reflexivity.
 Qed.
 
+(* non-vacuity of C02_no_nan / C02_slew_bound: the default-like configuration, a kernel frequency of 10 ppm,
+   a history with a frequency steer, a slew at slew_max, a consensus update during the slew, the end of the slew
+   and two infinite requests satisfy the hypotheses; six frequencies are applied, the last two are the limits *)
+Example C02_nonvacuous_no_nan :
+  let c := witness_cfg in
+  let s := init_st 0.00001%float in
+  nan_cfg c /\ slew_cfg c /\ freq_ok s /\ slew_ok c s /\ Forall (op_ok c) nv_ops /\
+  length (freqs_of (fst (run repo_arith c s nv_ops))) = 6%nat /\
+  skipn 4 (freqs_of (fst (run repo_arith c s nv_ops))) = [c_max_freq c; PrimFloat.opp (c_max_freq c)] /\
+  (exists s1, snd (run repo_arith c s (firstn 2 nv_ops)) = Ok s1 /\
+              desired_freq s1 = PrimFloat.opp (c_slew_max c)).
+Proof.
+  vm_compute. repeat split; repeat constructor. eexists. split; reflexivity.
+Qed.
+
 Print Assumptions C02_clamp_range.
 Print Assumptions C02_clamp_panic_iff.
 Print Assumptions C02_set_frequency.
 Print Assumptions C02_freq_offset_state.
+Print Assumptions C02_clamp_arg_not_nan.
+Print Assumptions C02_no_nan.
+Print Assumptions C02_no_nan_refuted.
 Print Assumptions C02_min_bound.
 Print Assumptions C02_slew_frequency.
-Print Assumptions C02_slew_partial.
+Print Assumptions C02_slew_desired.
+Print Assumptions C02_slew_exact.
+Print Assumptions C02_slew_frequency_abs.
+Print Assumptions C02_slew_started_bound.
+Print Assumptions C02_slew_bound.
 Print Assumptions C02_slew_ends.
